@@ -22,7 +22,7 @@ CASES = [
       "            self.lamb += other.lamb  # reorganization energy is additive\n            if other.cutoff_time",
       "            if other.cutoff_time"),
     m("only the first component of the right operand is recorded", "C09-B", S,
-      "            for p in other.params:\n                self.params.append(p)            ", "            self.params.append(other.params[0])            "),
+      "            for p in list(other.params):\n                self.params.append(p)\n", "            self.params.append(other.params[0])\n"),
     m("temperature check removed", "C09-B", C,
       "            if self.temperature != other.temperature:\n                raise Exception(\"Cannot add two correlation functions on different temperatures\")\n", ""),
     m("SpectralDensity rebuild outside internal units (the repaired defect)", "C09-B", S,
@@ -194,4 +194,15 @@ CASES += [
         ("quantarhei/qm/corfunctions/cfmatrix.py", "        self.cfuncs = [None]*(nof+1)", "        self.cfuncs = [None]*(nof+1)\n        self._notes = [{}]*(nof+1)", 1)]},
     {"name": "places kept in lists made one by one", "kind": "twin", "edits": [
         ("quantarhei/qm/corfunctions/cfmatrix.py", "        self.where = [[] for _i in range(nof+1)]", "        self.where = []\n        for _i in range(nof+1):\n            self.where.append([])", 1)]},
+]
+
+CASES += [
+    {"name": "correlation time read with a key no builder uses (the repaired defect)", "kind": "mutant", "rule": "C09-L", "edits": [
+        (C, "        return self.params[0][\"cortime\"]", "        return self.params[0][\"ctime\"]", 1)]},
+    {"name": "components copied from the live list (the repaired defect)", "kind": "mutant", "rule": "C09-L", "edits": [
+        (C, "            for p in list(other.params):\n                self.params.append(p)\n", "            for p in other.params:\n                self.params.append(p)\n", 1)]},
+    {"name": "list of components indexed with a string (the repaired defect)", "kind": "mutant", "rule": "C09-L", "edits": [
+        (S, "        return all(p[\"ftype\"] in self.analytical_types for p in self.params)", "        return bool(self.params[\"ftype\"] in self.analytical_types)", 1)]},
+    {"name": "self-addition taken out before the copying loop", "kind": "twin", "edits": [
+        (C, "            for p in list(other.params):\n                self.params.append(p)\n", "            if other is self:\n                self.params.extend(list(self.params))\n            else:\n                for p in other.params:\n                    self.params.append(p)\n", 1)]},
 ]
